@@ -209,12 +209,11 @@ deriving Repr
 def SView.numFrames (v : SView) : Nat := v.frames.length
 
 /-- `frame_timestamp_ranges(include_dead_time=False)`: per frame, from the timestamp of pixel `[0,0]`
-    (multi-frame) or the smallest pixel timestamp (single frame) to one period past the largest. -/
+    to one period past the largest pixel timestamp (the single-frame branch used the smallest pixel
+    timestamp of the zero-padded image before finding F11 was repaired). -/
 def SView.ranges (v : SView) : List (Int × Int) :=
-  match v.frames with
-  | [f] => [(minList (f.flatten.map (·.tmin)), maxList (f.flatten.map (·.tmax)) + v.delta)]
-  | fs => fs.map fun f =>
-      (((f.head?.bind List.head?).map (·.tmin)).getD 0, maxList (f.flatten.map (·.tmax)) + v.delta)
+  v.frames.map fun f =>
+    (((f.head?.bind List.head?).map (·.tmin)).getD 0, maxList (f.flatten.map (·.tmax)) + v.delta)
 
 def numColsF (f : Frame) : Nat := (f.head?.map List.length).getD 0
 
